@@ -170,6 +170,14 @@ func prototypes(s *svcSpec, r *Rng) [][][]byte {
 			append(append([][]byte{}, login...), []byte("PORT 10,1,0,10,4,1\r\n"), []byte("EPRT |1|10.1.0.10|1025|\r\n"), xfer()),
 			append(append([][]byte{}, login...), []byte("PASV\r\n"), pasvConnectMarker, []byte("PORT 10,1,0,10,4,1\r\n"), xfer()),
 		)
+	case "ldap":
+		// rootDSE searches (base "", scope base, present filter, no attribute list), with and without typesOnly: the
+		// dialogue grammar leaves them out because their reply is built from a map
+		for k := 0; k < 2; k++ {
+			id := int64(r.Range(1, 100))
+			op := bSeq(0x40|3, bOct(""), bInt(0x0a, 0), bInt(0x0a, 0), bInt(0x02, 0), bInt(0x02, 0), bBool(k == 1 || r.Chance(0.3)), bStr(0x80|7, "objectClass"), bSeq(0x10))
+			out = append(out, [][]byte{bSeq(0x10, bInt(0x02, id), op).enc(false), bSeq(0x10, bInt(0x02, id+1), op).enc(false)})
+		}
 	case "echo", "echo-udp":
 		out = append(out, [][]byte{[]byte("hello\r\n"), r.Bytes(r.Range(1, 100))})
 	case "smtp":
